@@ -483,6 +483,8 @@ func (s *scanner) SkipToEOL() {
 		} else if b == 13 { // CR or CR+LF
 			s.SkipOptionalByte(10)
 			return
+		} else if b == 12 { // FF also ends a comment (PLRM section 3.2.2)
+			return
 		}
 	}
 }
